@@ -807,7 +807,9 @@ func main() {
 			"Critical-section streams (oracle + model case CaseCrit; crit.go): slow-collect = one genrule whose outputs take long to hash and move (a 1 GiB sparse file / a directory of 4 sparse " +
 			"256 MiB files and 600 small ones), 2-3 invocations of it, the later ones started once the first holds the target lock and runs the command (they wait on the lock): all exit 0, outputs " +
 			"as expected, the command ran once; copied-filegroup = a filegroup with binary = True (copied) over a directory of 12000 files / 1500 single files / one 32 MiB file, 3 invocations from " +
-			"an empty plz-out, the later ones started when the first (at niceness 19) has populated 3-20 % of the output, or staggered by random fractions of a single build: all exit 0, output tree = source tree. " +
+			"an empty plz-out, the later ones started when the first (at niceness 19) has populated 3-20 % of the output, or staggered by random fractions of a single build: all exit 0, output tree = source tree; " +
+			"variant shared-file (model case CaseShared): 4 DIFFERENT binary filegroups re-exporting one 256 MiB source file (one output path, four target locks), 3-4 invocations building one each, " +
+			"the later ones started together when the first (at niceness 19) has opened its temporary file next to the destination: all exit 0, the output directory holds exactly the file. " +
 			"distinct = distinct (repository, requests); non-trivial = at least one command is in the closure of two or more of the concurrent invocations")
 		base := e2e.Scratch("c31")
 		defer os.RemoveAll(base)
@@ -828,7 +830,9 @@ func main() {
 
 		n := c.Scale(10, 400)
 		// VERIF_C31_STREAMS=crit: only the critical-section streams (for working on them; bin/check never sets it)
-		critOnly := os.Getenv("VERIF_C31_STREAMS") == "crit"
+		// VERIF_C31_STREAMS=shared: only the shared-file variant of the copied-filegroup stream
+		sharedOnly := os.Getenv("VERIF_C31_STREAMS") == "shared"
+		critOnly := os.Getenv("VERIF_C31_STREAMS") == "crit" || sharedOnly
 		if critOnly {
 			n = 0
 		}
@@ -844,7 +848,13 @@ func main() {
 		wg.Add(1)
 		tStart := time.Now()
 		var slowWall time.Duration
-		go func() { defer wg.Done(); slow = runSlowStreams(base+"/crit", c.Thor); slowWall = time.Since(tStart) }()
+		go func() {
+			defer wg.Done()
+			if !sharedOnly {
+				slow = runSlowStreams(base+"/crit", c.Thor)
+			}
+			slowWall = time.Since(tStart)
+		}()
 		sem := make(chan struct{}, workers)
 		for i := 0; i < n; i++ {
 			wg.Add(1)
